@@ -513,6 +513,9 @@ def write_evidence(mod, prop, tier, seed, aggs, det_pairs, det_mismatch, n_viol,
     }
     if harness_errors:
         ev["coverage"]["harness_errors"] = [e[:500] for e in harness_errors[:5]]
-    os.makedirs(os.path.join(VERIF, "evidence"), exist_ok=True)
-    with open(os.path.join(VERIF, "evidence", "%s.json" % prop), "w") as f:
+    # evidence describes /repo itself; runs against a substituted tree (mutants,
+    # seeded changes) must not overwrite it
+    evdir = os.path.join(VERIF, "evidence") if interp.repo_dir() == "/repo" else os.path.join(SCRATCH_ROOT, "evidence-other-tree")
+    os.makedirs(evdir, exist_ok=True)
+    with open(os.path.join(evdir, "%s.json" % prop), "w") as f:
         json.dump(ev, f, indent=1, sort_keys=True)
